@@ -349,8 +349,9 @@ def ordered_map_valid_stream_old(data_field, map_field, result_field,
                              invalid=-1, chunksize=DEFAULT_CHUNKSIZE):
     df_it = iter(chunks(len(data_field.data), chunksize=chunksize))
     mf_it = iter(chunks(len(map_field.data), chunksize=chunksize))
-    df_range = next(df_it)
-    mf_range = next(mf_it)
+    # an empty column has no chunks: treat it as the single empty chunk
+    df_range = next(df_it, (0, 0))
+    mf_range = next(mf_it, (0, 0))
     dfc = data_field.data[df_range[0]:df_range[1]]
     mfc = map_field.data[mf_range[0]:mf_range[1]]
 
@@ -1755,9 +1756,10 @@ def generate_ordered_map_to_left_right_unique_streamed_old(left,
     i = 0
     j = 0
     lc_it = iter(chunks(len(left.data), chunksize))
-    lc_range = next(lc_it)
+    # an empty column has no chunks: treat it as the single empty chunk
+    lc_range = next(lc_it, (0, 0))
     rc_it = iter(chunks(len(right.data), chunksize))
-    rc_range = next(rc_it)
+    rc_range = next(rc_it, (0, 0))
     lc = left.data[lc_range[0]:lc_range[1]]
     rc = right.data[rc_range[0]:rc_range[1]]
     acc_written = 0
